@@ -67,3 +67,7 @@ PROPS['C06'] = dict(
                 'normalize divides by |integral|; rebin: response_i = PLI(clipped midpoint edges) with the clip to the filter\'s own [min,max] range for either storage '
                 'order, integrate_subset preconditions at the call site. NOT proved (bounded only): integrate_subset body, sum R_i = integral over the overlap, flat-spectrum '
                 'and linearity corollaries, convolve_model_dir regions. Level "other": kernels proved, composition bounded.')
+
+for _p, _fn, _lvl in (('C12', 'run_c12', 'other'), ('C13', 'run_c13', 'other'), ('C14', 'run_c14', 'other'), ('C15', 'run_c15', 'other'),
+                      ('C19', 'run_c19', 'fault_enumeration'), ('C20', 'run_c20', 'other')):
+    PROPS[_p] = dict(level=_lvl, e1=[], e2=('rtc.io_props', _fn), assumptions=COMMON, explanation='(being extended) bounded run on the real code')
